@@ -137,12 +137,14 @@ struct World {
    SV violations04, violations13, drift;
    Tree before;                                    // the server's state before the last command
    bool uniqueNames;                               // every incarnation of a client slot gets its own name (traces given to TLC: a path names one node for ever)
-   World() : srv(NULL), uniqueNames(false) {}
+   int limit;                                      // the server's per-node child limit (0 = none)
+   World() : srv(NULL), uniqueNames(false), limit(0) {}
    ~World() { Close(); }
 
-   void Open(const SV & names)
+   void Open(const SV & names, int childLimit = 0)      // childLimit: PR_NAME_MAX_CHILDREN_PER_NODE of the server (muscled maxchildrenpernode=N), 0 = none
    {
-      srv = new ReflectServer; srv->SetDoLogging(false);
+      srv = new ReflectServer; srv->SetDoLogging(false); limit = childLimit;
+      if (childLimit > 0) (void) srv->GetCentralState().AddInt32(PR_NAME_MAX_CHILDREN_PER_NODE, childLimit);
       for (size_t i=0; i<names.size(); i++) { Client * c = new Client; c->base = names[i]; c->name = uniqueNames ? (names[i] + "#1") : names[i]; cs.push_back(c); }
    }
    void Close()
@@ -372,6 +374,24 @@ struct World {
             (void) m()->AddMessage("ops", s);
          }
       }
+      else if (op == "subscribe")
+      {
+         m = GetMessageFromPool(PR_COMMAND_SETPARAMETERS);
+         for (size_t i=0; i<cmd["subs"].a.size(); i++)
+         {
+            const String fn = String("SUBSCRIBE:") + cmd["subs"].a[i]["sp"].s.c_str(); const int f = (int) cmd["subs"].a[i]["f"].i();
+            if (f) (void) m()->AddMessage(fn, FilterMsg(f)); else (void) m()->AddBool(fn, true);
+         }
+         if (cmd["quiet"].truthy()) (void) m()->AddBool(PR_NAME_SUBSCRIBE_QUIETLY, true);
+      }
+      else if (op == "getdata")
+      {
+         m = GetMessageFromPool(PR_COMMAND_GETDATA);
+         (void) m()->AddString(PR_NAME_KEYS, cmd["sp"].s.c_str());
+         if (cmd["f"].i()) (void) m()->AddMessage(PR_NAME_FILTERS, FilterMsg((int) cmd["f"].i()));
+      }
+      else if (op == "unsubscribe") { m = GetMessageFromPool(PR_COMMAND_REMOVEPARAMETERS); (void) m()->AddString(PR_NAME_KEYS, String("SUBSCRIBE:") + EscapeRegexTokens(cmd["sp"].s.c_str())); }
+      else if (op == "maxitems") { m = GetMessageFromPool(PR_COMMAND_SETPARAMETERS); (void) m()->AddInt32(PR_NAME_MAX_UPDATE_MESSAGE_ITEMS, (int32) cmd["n"].i()); }
       else if (op == "clone")   { m = GetMessageFromPool(WHAT_CLONE);       (void) m()->AddString("f", cmd["from"].s.c_str()); (void) m()->AddString("t", cmd["to"].s.c_str()); }
       else if (op == "restore") { m = GetMessageFromPool(WHAT_SAVERESTORE); (void) m()->AddString("f", cmd["from"].s.c_str()); (void) m()->AddString("t", cmd["to"].s.c_str()); }
       else if (op == "batch")
@@ -380,6 +400,83 @@ struct World {
          for (size_t i=0; i<cmd["cmds"].a.size(); i++) { MessageRef s = BuildServerMessage(cmd["cmds"].a[i]); if (s()) (void) m()->AddMessage(PR_NAME_KEYS, s); }
       }
       return m;
+   }
+
+   // executes one command, pumps until the server is quiescent, applies the received updates and the client-side rules
+   // ---- commands that change the client's own view (subscriptions, explicit requests): wire form, and the client-side rules around them
+   static bool IsClientOp(const std::string & op) { return (op == "subscribe")||(op == "getdata")||(op == "unsubscribe")||(op == "maxitems"); }
+   struct Pre { std::vector<Sub> add; std::set<std::string> needSnapshot, mustSnapshot, quietNew, newlyMatched; };
+
+   // before the command is sent (ref = the server's tree at the moment the command will be executed)
+   void ClientPre(Client & c, const J & cmd, const Tree & ref, Pre & pre, bool markUntracked = true)
+   {
+      const std::string op = cmd["op"].s; const bool quiet = cmd["quiet"].truthy();
+      if (op == "subscribe")
+      {
+         for (size_t i=0; i<cmd["subs"].a.size(); i++) { Sub s; s.sp = cmd["subs"].a[i]["sp"].s; s.f = (int) cmd["subs"].a[i]["f"].i(); pre.add.push_back(s); }
+         // C13 precondition: a node that comes into view with a non-empty index is tracked only once its snapshot has arrived
+         // quietNew: what a quietly ADDED subscription matches - the client is not told (a quiet filter change of an existing one is reported in full)
+         for (Tree::const_iterator it = ref.begin(); it != ref.end(); ++it)
+         {
+            const std::string & p = it->first; if (Depth(p) < 2) continue;
+            bool nowPath = false, sel = false;
+            for (size_t i=0; i<pre.add.size(); i++) if (PathMatch(pre.add[i].sp, p)) { nowPath = true; if ((pre.add[i].f == 0)||((uint32)pre.add[i].f == it->second.what)) sel = true; }
+            if (!nowPath) continue;
+            if (quiet) for (size_t i=0; i<pre.add.size(); i++) if (PathMatch(pre.add[i].sp, p)) { bool isNew = true; for (size_t k=0; k<c.subs.size(); k++) if (c.subs[k].sp == pre.add[i].sp) isNew = false; if (isNew) pre.quietNew.insert(p); }
+            if (!c.PathSubscribed(p)) { pre.newlyMatched.insert(p); c.untracked.erase(p); if (!it->second.index.empty()) pre.needSnapshot.insert(p); }     // coming into view: decided afresh
+            if ((sel)&&(!quiet)&&(!it->second.index.empty())&&(!c.Owns(p))) pre.mustSnapshot.insert(p);
+         }
+         for (size_t i=0; i<pre.add.size(); i++) { bool found = false; for (size_t k=0; k<c.subs.size(); k++) if (c.subs[k].sp == pre.add[i].sp) { c.subs[k].f = pre.add[i].f; found = true; } if (!found) c.subs.push_back(pre.add[i]); }
+         if (markUntracked) for (std::set<std::string>::iterator it = pre.needSnapshot.begin(); it != pre.needSnapshot.end(); ++it) { c.untracked.insert(*it); c.idx.erase(*it); }
+      }
+      else if (op == "getdata")
+      {
+         const int f = (int) cmd["f"].i();
+         for (Tree::const_iterator it = ref.begin(); it != ref.end(); ++it)
+            if ((Depth(it->first) >= 2)&&(PathMatch(cmd["sp"].s, it->first))&&((f == 0)||((uint32)f == it->second.what))&&(!it->second.index.empty())&&(!c.Owns(it->first))) pre.mustSnapshot.insert(it->first);
+      }
+      else if (op == "unsubscribe") { for (size_t k=0; k<c.subs.size(); k++) if (c.subs[k].sp == cmd["sp"].s) { c.subs.erase(c.subs.begin()+k); break; } }
+   }
+   // after the server is quiescent again
+   void ClientPost(Client & c, const J & cmd, Pre & pre, bool judgeSnapshot)
+   {
+      const std::string op = cmd["op"].s; char b[300];
+      if (op == "subscribe")
+      {
+         for (std::set<std::string>::iterator it = pre.quietNew.begin(); it != pre.quietNew.end(); ++it) c.unclaimed.insert(*it);
+         if (judgeSnapshot) for (std::set<std::string>::iterator it = pre.mustSnapshot.begin(); it != pre.mustSnapshot.end(); ++it)
+            if (!c.snapshots.count(*it)) { snprintf(b, sizeof(b), "%s subscribed to %s (selected, index not empty) but the initial result carries no index snapshot", c.name.c_str(), SpecPathStr(*it).c_str()); V13(b); }
+      }
+      else if (op == "getdata")
+      {
+         if (judgeSnapshot) for (std::set<std::string>::iterator it = pre.mustSnapshot.begin(); it != pre.mustSnapshot.end(); ++it)
+            if (!c.snapshots.count(*it)) { snprintf(b, sizeof(b), "%s requested %s (index not empty) but the result carries no index snapshot", c.name.c_str(), SpecPathStr(*it).c_str()); V13(b); }
+         // the client keeps only what its subscriptions select (the same rule as after removing a subscription)
+         for (std::map<std::string,uint32>::iterator it = c.mirror.begin(); it != c.mirror.end(); ) { if (c.Selected(it->first, it->second)) ++it; else c.mirror.erase(it++); }
+         // a snapshot of a node the client is not path-subscribed to is not followed by updates: not tracked
+         for (std::set<std::string>::iterator it = c.snapshots.begin(); it != c.snapshots.end(); ++it) if (!c.PathSubscribed(*it)) c.idx.erase(*it);
+      }
+      else if (op == "unsubscribe")
+      {
+         // client protocol (ii): drop what no remaining subscription selects (path and filter, on the mirrored payload)
+         for (std::map<std::string,uint32>::iterator it = c.mirror.begin(); it != c.mirror.end(); ) { if (c.Selected(it->first, it->second)) ++it; else c.mirror.erase(it++); }
+         for (std::map<std::string,SV>::iterator it = c.idx.begin(); it != c.idx.end(); ) { if (c.PathSubscribed(it->first)) ++it; else c.idx.erase(it++); }
+         for (std::set<std::string>::iterator it = c.untracked.begin(); it != c.untracked.end(); ) { if (c.PathSubscribed(*it)) ++it; else c.untracked.erase(it++); }
+         for (std::set<std::string>::iterator it = c.unclaimed.begin(); it != c.unclaimed.end(); ) { if (c.PathSubscribed(*it)) ++it; else c.unclaimed.erase(it++); }
+      }
+   }
+   // a subscribe that is the LAST part of a BATCH: the tree it saw is the tree after the batch; nothing but its own initial result
+   // can have arrived for the nodes it brings into view, so the tracking decision can be taken afterwards
+   void ClientDeferred(Client & c, const J & cmd, const Tree & after)
+   {
+      const std::string op = cmd["op"].s;
+      if (op == "subscribe")
+      {
+         Pre pre; ClientPre(c, cmd, after, pre, false);
+         for (std::set<std::string>::iterator it = pre.needSnapshot.begin(); it != pre.needSnapshot.end(); ++it) if (!c.snapshots.count(*it)) { c.untracked.insert(*it); c.idx.erase(*it); }   // came into view with entries and without a snapshot
+         for (std::set<std::string>::iterator it = pre.quietNew.begin(); it != pre.quietNew.end(); ++it) c.unclaimed.insert(*it);
+      }
+      else { Pre pre; ClientPre(c, cmd, after, pre); ClientPost(c, cmd, pre, false); }
    }
 
    // executes one command, pumps until the server is quiescent, applies the received updates and the client-side rules
@@ -398,92 +495,45 @@ struct World {
 
       Walk(before);
       const bool quiet = cmd["quiet"].truthy();
-      if (op == "subscribe")
+      if (IsClientOp(op))
       {
-         MessageRef m = GetMessageFromPool(PR_COMMAND_SETPARAMETERS);
-         std::vector<Sub> add;
-         for (size_t i=0; i<cmd["subs"].a.size(); i++)
-         {
-            Sub s; s.sp = cmd["subs"].a[i]["sp"].s; s.f = (int) cmd["subs"].a[i]["f"].i(); add.push_back(s);
-            const String fn = String("SUBSCRIBE:") + s.sp.c_str();
-            if (s.f) (void) m()->AddMessage(fn, FilterMsg(s.f)); else (void) m()->AddBool(fn, true);
-         }
-         if (quiet) (void) m()->AddBool(PR_NAME_SUBSCRIBE_QUIETLY, true);
-         // C13 precondition: a node that comes into view with a non-empty index is tracked only once its snapshot has arrived
-         std::set<std::string> needSnapshot, mustSnapshot, quietNew;     // quietNew: what a quietly ADDED subscription matches - the client is not told (a quiet filter change of an existing one is reported in full)
-         for (Tree::const_iterator it = before.begin(); it != before.end(); ++it)
-         {
-            const std::string & p = it->first; if (Depth(p) < 2) continue;
-            bool nowPath = false, sel = false;
-            for (size_t i=0; i<add.size(); i++) if (PathMatch(add[i].sp, p)) { nowPath = true; if ((add[i].f == 0)||((uint32)add[i].f == it->second.what)) sel = true; }
-            if (!nowPath) continue;
-            if (quiet) for (size_t i=0; i<add.size(); i++) if (PathMatch(add[i].sp, p)) { bool isNew = true; for (size_t k=0; k<c.subs.size(); k++) if (c.subs[k].sp == add[i].sp) isNew = false; if (isNew) quietNew.insert(p); }
-            if ((!c.PathSubscribed(p))&&(!it->second.index.empty())) needSnapshot.insert(p);
-            if ((sel)&&(!quiet)&&(!it->second.index.empty())&&(!c.Owns(p))) mustSnapshot.insert(p);
-         }
-         for (size_t i=0; i<add.size(); i++) { bool found = false; for (size_t k=0; k<c.subs.size(); k++) if (c.subs[k].sp == add[i].sp) { c.subs[k].f = add[i].f; found = true; } if (!found) c.subs.push_back(add[i]); }
-         for (std::set<std::string>::iterator it = needSnapshot.begin(); it != needSnapshot.end(); ++it) { c.untracked.insert(*it); c.idx.erase(*it); }
-         Send(c, m); Pump();
-         for (std::set<std::string>::iterator it = quietNew.begin(); it != quietNew.end(); ++it) c.unclaimed.insert(*it);
-         char b[300];
-         for (std::set<std::string>::iterator it = mustSnapshot.begin(); it != mustSnapshot.end(); ++it)
-            if (!c.snapshots.count(*it)) { snprintf(b, sizeof(b), "%s subscribed to %s (selected, index not empty) but the initial result carries no index snapshot", c.name.c_str(), SpecPathStr(*it).c_str()); V13(b); }
+         Pre pre; ClientPre(c, cmd, before, pre);
+         Send(c, BuildServerMessage(cmd)); Pump();
+         ClientPost(c, cmd, pre, true);
+         return;
       }
-      else if (op == "getdata")
+      MessageRef m = BuildServerMessage(cmd);
+      if (m() == NULL) return;
+      // a BATCH may carry commands of the client-side kind as its FIRST part (executed on the tree as it is now) and as its LAST part
+      const J * first = NULL; const J * lastPart = NULL; Pre pre;
+      if (op == "batch")
       {
-         MessageRef m = GetMessageFromPool(PR_COMMAND_GETDATA);
-         (void) m()->AddString(PR_NAME_KEYS, cmd["sp"].s.c_str());
-         const int f = (int) cmd["f"].i();
-         if (f) (void) m()->AddMessage(PR_NAME_FILTERS, FilterMsg(f));
-         std::set<std::string> mustSnapshot;
-         for (Tree::const_iterator it = before.begin(); it != before.end(); ++it)
-            if ((Depth(it->first) >= 2)&&(PathMatch(cmd["sp"].s, it->first))&&((f == 0)||((uint32)f == it->second.what))&&(!it->second.index.empty())&&(!c.Owns(it->first))) mustSnapshot.insert(it->first);
-         Send(c, m); Pump();
-         char b[300];
-         for (std::set<std::string>::iterator it = mustSnapshot.begin(); it != mustSnapshot.end(); ++it)
-            if (!c.snapshots.count(*it)) { snprintf(b, sizeof(b), "%s requested %s (index not empty) but the result carries no index snapshot", c.name.c_str(), SpecPathStr(*it).c_str()); V13(b); }
-         // the client keeps only what its subscriptions select (the same rule as after removing a subscription)
-         for (std::map<std::string,uint32>::iterator it = c.mirror.begin(); it != c.mirror.end(); ) { if (c.Selected(it->first, it->second)) ++it; else c.mirror.erase(it++); }
-         // a snapshot of a node the client is not path-subscribed to is not followed by updates: not tracked
-         for (std::set<std::string>::iterator it = c.snapshots.begin(); it != c.snapshots.end(); ++it) if (!c.PathSubscribed(*it)) c.idx.erase(*it);
+         const std::vector<J> & parts = cmd["cmds"].a;
+         if ((!parts.empty())&&(IsClientOp(parts[0]["op"].s))) first = &parts[0];
+         if ((parts.size() > 1)&&(IsClientOp(parts[parts.size()-1]["op"].s))) lastPart = &parts[parts.size()-1];
+         if (first) ClientPre(c, *first, before, pre);
       }
-      else if (op == "unsubscribe")
+      Send(c, m); Pump();
+      if (lastPart) { Tree after; Walk(after); ClientDeferred(c, *lastPart, after); }
+      if (first) ClientPost(c, *first, pre, false);      // (the pruning rules look at the subscriptions as they are after the whole batch)
+      // quiet operations: what they touched is outside the claims until the clients hear of it again
+      bool anyQuiet = quiet;
+      if (op == "batch") for (size_t i=0; i<cmd["cmds"].a.size(); i++) if ((cmd["cmds"].a[i]["quiet"].truthy())&&(!IsClientOp(cmd["cmds"].a[i]["op"].s))) anyQuiet = true;
+      if (anyQuiet)
       {
-         MessageRef m = GetMessageFromPool(PR_COMMAND_REMOVEPARAMETERS);
-         (void) m()->AddString(PR_NAME_KEYS, String("SUBSCRIBE:") + EscapeRegexTokens(cmd["sp"].s.c_str()));
-         for (size_t k=0; k<c.subs.size(); k++) if (c.subs[k].sp == cmd["sp"].s) { c.subs.erase(c.subs.begin()+k); break; }
-         Send(c, m); Pump();
-         // client protocol (ii): drop what no remaining subscription selects (path and filter, on the mirrored payload)
-         for (std::map<std::string,uint32>::iterator it = c.mirror.begin(); it != c.mirror.end(); ) { if (c.Selected(it->first, it->second)) ++it; else c.mirror.erase(it++); }
-         for (std::map<std::string,SV>::iterator it = c.idx.begin(); it != c.idx.end(); ) { if (c.PathSubscribed(it->first)) ++it; else c.idx.erase(it++); }
-         for (std::set<std::string>::iterator it = c.untracked.begin(); it != c.untracked.end(); ) { if (c.PathSubscribed(*it)) ++it; else c.untracked.erase(it++); }
-         for (std::set<std::string>::iterator it = c.unclaimed.begin(); it != c.unclaimed.end(); ) { if (c.PathSubscribed(*it)) ++it; else c.unclaimed.erase(it++); }
-      }
-      else if (op == "maxitems") { MessageRef m = GetMessageFromPool(PR_COMMAND_SETPARAMETERS); (void) m()->AddInt32(PR_NAME_MAX_UPDATE_MESSAGE_ITEMS, (int32) cmd["n"].i()); Send(c, m); Pump(); }
-      else
-      {
-         MessageRef m = BuildServerMessage(cmd);
-         if (m() == NULL) return;
-         Send(c, m); Pump();
-         // quiet operations: what they touched is outside the claims until the clients hear of it again
-         bool anyQuiet = quiet;
-         if (op == "batch") for (size_t i=0; i<cmd["cmds"].a.size(); i++) if (cmd["cmds"].a[i]["quiet"].truthy()) anyQuiet = true;
-         if (anyQuiet)
-         {
-            Tree after; Walk(after);
-            std::set<std::string> touched;
-            for (Tree::const_iterator it = before.begin(); it != before.end(); ++it) { Tree::const_iterator a = after.find(it->first); if ((a == after.end())||(a->second.what != it->second.what)||(a->second.ptr != it->second.ptr)) touched.insert(it->first); if (((a != after.end())&&(a->second.index != it->second.index))||((a == after.end())&&(!it->second.index.empty()))) touched.insert(it->first+"\x01"); }
-            for (Tree::const_iterator it = after.begin(); it != after.end(); ++it) if (before.find(it->first) == before.end()) touched.insert(it->first);
-            // a quiet set of an existing node with the same payload changes nothing visible; a quiet set is named by the command too
-            if (op == "set") touched.insert(c.root + "/" + RelPath(cmd["q"]));
-            if (op == "batch") for (size_t i=0; i<cmd["cmds"].a.size(); i++) if ((cmd["cmds"].a[i]["op"].s == "set")&&(cmd["cmds"].a[i]["quiet"].truthy())) touched.insert(c.root + "/" + RelPath(cmd["cmds"].a[i]["q"]));
-            for (std::set<std::string>::iterator it = touched.begin(); it != touched.end(); ++it)
-               for (size_t k=0; k<cs.size(); k++) if (cs[k]->connected)
-               {
-                  if ((!it->empty())&&((*it)[it->size()-1] == '\x01')) { std::string p = it->substr(0, it->size()-1); cs[k]->untracked.insert(p); cs[k]->idx.erase(p); }
-                  else cs[k]->unclaimed.insert(*it);
-               }
-         }
+         Tree after; Walk(after);
+         std::set<std::string> touched;
+         for (Tree::const_iterator it = before.begin(); it != before.end(); ++it) { Tree::const_iterator a = after.find(it->first); if ((a == after.end())||(a->second.what != it->second.what)||(a->second.ptr != it->second.ptr)) touched.insert(it->first); if (((a != after.end())&&(a->second.index != it->second.index))||((a == after.end())&&(!it->second.index.empty()))) touched.insert(it->first+"\x01"); }
+         for (Tree::const_iterator it = after.begin(); it != after.end(); ++it) if (before.find(it->first) == before.end()) touched.insert(it->first);
+         // a quiet set of an existing node with the same payload changes nothing visible; a quiet set is named by the command too
+         if (op == "set") touched.insert(c.root + "/" + RelPath(cmd["q"]));
+         if (op == "batch") for (size_t i=0; i<cmd["cmds"].a.size(); i++) if ((cmd["cmds"].a[i]["op"].s == "set")&&(cmd["cmds"].a[i]["quiet"].truthy())) touched.insert(c.root + "/" + RelPath(cmd["cmds"].a[i]["q"]));
+         for (std::set<std::string>::iterator it = touched.begin(); it != touched.end(); ++it)
+            for (size_t k=0; k<cs.size(); k++) if (cs[k]->connected)
+            {
+               if ((!it->empty())&&((*it)[it->size()-1] == '\x01')) { std::string p = it->substr(0, it->size()-1); if (cs[k]->PathSubscribed(p)) { cs[k]->untracked.insert(p); cs[k]->idx.erase(p); } }
+               else cs[k]->unclaimed.insert(*it);
+            }
       }
    }
 
@@ -525,6 +575,7 @@ struct World {
    }
 };
 
+static J Cmd2(const char * op, const std::string & s) { J c = J::Obj(); c.set("op", J::Str(op)); c.set("s", J::Str(s)); return c; }
 static void Emit(const J & v) { std::string s = mj::ToString(v); fprintf(g_report, "%s\n", s.c_str()); }
 static J JV(const SV & v) { return JStrs(v); }
 
@@ -542,15 +593,18 @@ static int Replay(const char * behFile, const char * repFile)
       J b; if (!mj::Parse(line, b)) { fprintf(stderr, "bad behaviour line\n"); return 2; }
       nb++; alarm(60);
       World w; SV names; for (size_t i=0; i<b["sessions"].a.size(); i++) names.push_back(b["sessions"].a[i].s);
-      w.Open(names);
+      w.Open(names, (int) b["maxkids"].i());
       const bool isIndex = (b["kind"].s == "index");
+      J held; bool haveHeld = false;        // the first half of a two-command BATCH (IndexImpl: hold)
       for (size_t i=0; i<b["connect"].a.size(); i++) { Client * c = w.ByName(b["connect"].a[i].s); if (c) { w.Connect(*c); w.Pump(); } }
-      SV dr; size_t si = 0; bool bad = false;
+      SV dr; size_t si = 0; bool bad = false; J executed = J::Arr();
       for (; (si<b["steps"].a.size())&&(!bad); si++)
       {
          const J & st = b["steps"].a[si]; steps++;
          g_context = "behaviour " + std::to_string((long long) b["id"].i()) + " step " + std::to_string((long long) si) + " " + mj::ToString(st["cmd"]);
-         w.Exec(st["cmd"]);
+         if ((st["cmd"]["hold"].truthy())&&(si+1 < b["steps"].a.size())) { held = st["cmd"]; haveHeld = true; executed.push(J::Str("(held for the batch below)")); continue; }     // sent together with the next command; judged after both
+         if (haveHeld) { J bc = Cmd2("batch", st["cmd"]["s"].s); J parts = J::Arr(); parts.push(held); parts.push(st["cmd"]); bc.set("cmds", parts); haveHeld = false; executed.push(bc); w.Exec(bc); }
+         else { executed.push(st["cmd"]); w.Exec(st["cmd"]); }
          Tree t; w.Walk(t);
          w.Check(t);
          // the specification's expectation
@@ -588,7 +642,8 @@ static int Replay(const char * behFile, const char * repFile)
                SV gk = (it == t.end()) ? SV() : it->second.kids; std::sort(gk.begin(), gk.end()); std::sort(wk.begin(), wk.end());
                if (wk != gk) dr.push_back("step " + std::to_string((long long) si) + ": children of " + st["idx"].o[k].first + " are [" + Join(gk, " ") + "], the specification expects [" + Join(wk, " ") + "]");
             }
-            for (size_t k=0; (o)&&(k<st["imir"].o.size()); k++)
+            // (while the owner's session is away its node paths name nothing: the index mirrors are judged by Check() only)
+            for (size_t k=0; (o)&&(o->connected)&&(k<st["imir"].o.size()); k++)
             {
                Client * c = w.ByName(st["imir"].o[k].first); if ((c == NULL)||(!c->connected)) continue;
                const J & per = st["imir"].o[k].second;
@@ -616,7 +671,7 @@ static int Replay(const char * behFile, const char * repFile)
          if ((!w.violations04.empty())||(!w.violations13.empty())) violating++;
          if (!dr.empty()) { r.set("drift", JV(dr)); drifted++; }
          if (!w.drift.empty()) r.set("countdrift", JV(w.drift));
-         J cmds = J::Arr(); for (size_t k=0; k<si; k++) cmds.push(b["steps"].a[k]["cmd"]); r.set("commands", cmds); r.set("sessions", b["sessions"]);
+         J cmds = J::Arr(); for (size_t k=0; k<executed.a.size(); k++) if (executed.a[k].type == J::OBJ) cmds.push(executed.a[k]); r.set("commands", cmds); r.set("sessions", b["sessions"]); r.set("maxkids", b["maxkids"]);
          Emit(r);
       }
       else { followed++; if (!w.drift.empty()) { J r = J::Obj(); r.set("behaviour", J::Int(b["id"].i())); r.set("countdrift", JV(w.drift)); Emit(r); drifted++; } }
@@ -652,7 +707,15 @@ static bool AbstractData(const J & cmd, J & out)       // set / remove in the vo
       if (cmd.has("keys")) for (size_t i=0; i<cmd["keys"].a.size(); i++) keys.push(PatternJ(cmd["keys"].a[i].s)); else keys.push(PatternJ(cmd["key"].s));
       out.set("keys", keys); return true;
    }
-   if (op == "reorder") { out = J::Obj(); out.set("op", J::Str("none")); return true; }
+   if ((op == "reorder")||(op == "maxitems")) { out = J::Obj(); out.set("op", J::Str("none")); return true; }
+   if (op == "subscribe")
+   {
+      out = J::Obj(); out.set("op", J::Str("subscribe")); J subs = J::Arr();
+      for (size_t i=0; i<cmd["subs"].a.size(); i++) { J e = J::Obj(); e.set("sp", cmd["subs"].a[i]["sp"]); e.set("cl", SubPatternJ(cmd["subs"].a[i]["sp"].s)); e.set("f", cmd["subs"].a[i]["f"]); subs.push(e); }
+      out.set("subs", subs); return true;
+   }
+   if (op == "unsubscribe") { out = J::Obj(); out.set("op", J::Str("unsubscribe")); out.set("sp", cmd["sp"]); return true; }
+   if (op == "getdata") { out = J::Obj(); out.set("op", J::Str("getdata")); return true; }
    return false;
 }
 static J AbstractCmd(const J & cmd, bool & calc)
@@ -662,18 +725,11 @@ static J AbstractCmd(const J & cmd, bool & calc)
    else if ((op == "multi")||(op == "batch"))
    {
       const J & subs = cmd[op == "multi" ? "ops" : "cmds"]; J ops = J::Arr();
-      for (size_t i=0; i<subs.a.size(); i++) { J o; if (!AbstractData(subs.a[i], o)) calc = false; else ops.push(o); }
-      if (calc) { t.set("op", J::Str("seq")); t.set("ops", ops); } else t.set("op", J::Str("other"));
+      for (size_t i=0; i<subs.a.size(); i++) { J o; if (!AbstractData(subs.a[i], o)) { calc = false; o = J::Obj(); o.set("op", J::Str("none")); } ops.push(o); }
+      t.set("op", J::Str("seq")); t.set("ops", ops);       // (calc = false: the tree follows the observed change, the subscription parts still count)
    }
-   else if (op == "subscribe")
-   {
-      t.set("op", J::Str("subscribe")); J subs = J::Arr();
-      for (size_t i=0; i<cmd["subs"].a.size(); i++) { J e = J::Obj(); e.set("sp", cmd["subs"].a[i]["sp"]); e.set("cl", SubPatternJ(cmd["subs"].a[i]["sp"].s)); e.set("f", cmd["subs"].a[i]["f"]); subs.push(e); }
-      t.set("subs", subs);
-   }
-   else if (op == "unsubscribe") { t.set("op", J::Str("unsubscribe")); t.set("sp", cmd["sp"]); }
-   else if ((op == "getdata")||(op == "connect")||(op == "disconnect")) t.set("op", J::Str(op));
-   else if (op == "maxitems") t.set("op", J::Str("none"));
+   else if ((op == "subscribe")||(op == "unsubscribe")||(op == "getdata")||(op == "maxitems")) (void) AbstractData(cmd, t);
+   else if ((op == "connect")||(op == "disconnect")) t.set("op", J::Str(op));
    else { t.set("op", J::Str("other")); calc = false; }      // insert, clone, restore: generated names / subtree copies
    t.set("s", cmd["s"]);
    return t;
@@ -681,7 +737,9 @@ static J AbstractCmd(const J & cmd, bool & calc)
 static J TraceLine(World & w, const J & cmd, const Tree & after)
 {
    J r = J::Obj(); r.set("e", J::Str("cmd")); r.set("c", cmd);
-   bool calc; r.set("t", AbstractCmd(cmd, calc)); r.set("calc", J::Bool(calc));
+   bool calc; r.set("t", AbstractCmd(cmd, calc));
+   if ((w.limit > 0)&&((cmd["op"].s == "set")||(cmd["op"].s == "multi")||(cmd["op"].s == "batch"))) calc = false;      // a server with a child limit refuses some sets
+   r.set("calc", J::Bool(calc));
    // the change of the tree the harness observed on the server
    J d = J::Obj(); J ds = J::Arr(), dd = J::Arr();
    for (Tree::const_iterator it = w.before.begin(); it != w.before.end(); ++it) if ((World::Depth(it->first) >= 2)&&(after.find(it->first) == after.end())) dd.push(w.SpecPath(it->first));
@@ -745,6 +803,28 @@ struct Gen {
       c.set("path", J::Str(names[R(2)] + "/" + child)); const uint32 k = R(6); c.set("before", J::Str(k == 0 ? std::string("zz") : k == 1 ? std::string(REMOVE_FROM_INDEX) : k == 2 ? names[R(3)] : Gname())); return c;
    }
    J RandRemoveChild(const std::string & s) { J c = Cmd("remove", s); c.set("key", J::Str(names[R(2)] + "/" + (R(4) ? Gname() : std::string("*")))); return c; }
+   J RandSubscribe(Client & c, uint32 nf)
+   {
+      const std::string & s = c.name;
+      J cmd = Cmd("subscribe", s); J subs = J::Arr();
+      for (uint32 i=0; i<nf; i++)
+      {
+         std::string sp;
+         // one spelling per path per session (F27): skip a spelling whose normalised form the session already uses under another spelling
+         for (int tries=0; tries<20; tries++)
+         {
+            sp = subpats[R((uint32)subpats.size())]; const std::string norm = (sp[0] == '/') ? sp.substr(1) : "*/*/"+sp; bool clash = false;
+            for (size_t x=0; x<c.subs.size(); x++) { const std::string & o = c.subs[x].sp; if ((o != sp)&&(((o[0] == '/') ? o.substr(1) : "*/*/"+o) == norm)) clash = true; }
+            for (size_t x=0; x<subs.a.size(); x++) { const std::string & o = subs.a[x]["sp"].s; if (((o[0] == '/') ? o.substr(1) : "*/*/"+o) == norm) clash = true; }
+            if (!clash) break; sp.clear();
+         }
+         if (sp.empty()) continue;
+         J e = J::Obj(); e.set("sp", J::Str(sp)); e.set("f", J::Int(R(3))); subs.push(e);
+      }
+      if (subs.a.empty()) return Cmd("noop", s);
+      cmd.set("subs", subs); if (R(12) == 0) cmd.set("quiet", J::Bool(true));
+      return cmd;
+   }
    J Next(World & w, Client & c)
    {
       const std::string & s = c.name;
@@ -753,27 +833,7 @@ struct Gen {
       uint32 a = dataW;
       if (k < a) return RandSet(s);
       if (k < (a += remW)) return RandRemove(s);
-      if (k < (a += subW))
-      {
-         J cmd = Cmd("subscribe", s); J subs = J::Arr(); const uint32 nf = (R(5) == 0) ? 2 : 1;
-         for (uint32 i=0; i<nf; i++)
-         {
-            std::string sp;
-            // one spelling per path per session (F27): skip a spelling whose normalised form the session already uses under another spelling
-            for (int tries=0; tries<20; tries++)
-            {
-               sp = subpats[R((uint32)subpats.size())]; const std::string norm = (sp[0] == '/') ? sp.substr(1) : "*/*/"+sp; bool clash = false;
-               for (size_t x=0; x<c.subs.size(); x++) { const std::string & o = c.subs[x].sp; if ((o != sp)&&(((o[0] == '/') ? o.substr(1) : "*/*/"+o) == norm)) clash = true; }
-               for (size_t x=0; x<subs.a.size(); x++) { const std::string & o = subs.a[x]["sp"].s; if (((o[0] == '/') ? o.substr(1) : "*/*/"+o) == norm) clash = true; }
-               if (!clash) break; sp.clear();
-            }
-            if (sp.empty()) continue;
-            J e = J::Obj(); e.set("sp", J::Str(sp)); e.set("f", J::Int(R(3))); subs.push(e);
-         }
-         if (subs.a.empty()) return Cmd("noop", s);
-         cmd.set("subs", subs); if (R(12) == 0) cmd.set("quiet", J::Bool(true));
-         return cmd;
-      }
+      if (k < (a += subW)) return RandSubscribe(c, (R(5) == 0) ? 2 : 1);
       if (k < (a += unsubW)) { if (c.subs.empty()) return RandSet(s); J cmd = Cmd("unsubscribe", s); cmd.set("sp", J::Str(c.subs[R((uint32)c.subs.size())].sp)); return cmd; }
       if (k < (a += idxW)) { const uint32 j = R(10); if (j < 5) return RandInsert(s); if (j < 8) return RandReorder(s); return RandRemoveChild(s); }
       if (k < (a += cloneW)) { const bool clone = (R(3) != 0); J cmd = Cmd(clone ? "clone" : "restore", s); const uint32 f = R(3); const uint32 t = clone ? (f+1+R(2))%3 : R(3); cmd.set("from", J::Str(names[f])); cmd.set("to", J::Str(names[t])); return cmd; }
@@ -784,6 +844,16 @@ struct Gen {
          for (uint32 i=0; i<n; i++) { const uint32 j = R(8); J e = (j < 4) ? RandSet(s) : (j < 6) ? RandRemove(s) : (j == 6) ? RandInsert(s) : RandReorder(s);
                                         if (e.has("quiet")) e.set("quiet", J::Bool(false));   // quiet parts of a BATCH are not generated: what they touch cannot be told from outside
                                         cmds.push(e); }
+         // a request / subscription change as the first or the last part (e.g. a re-sync right after the changes)
+         const uint32 cp = R(4);
+         if (cp < 2)
+         {
+            J e; const uint32 j = R(4);
+            if (j < 2) { e = Cmd("getdata", s); e.set("sp", J::Str(R(2) ? names[R(3)] : subpats[R((uint32)subpats.size())])); e.set("f", J::Int(R(4) ? 0 : 1)); }
+            else if ((j == 2)&&(!c.subs.empty())) { e = Cmd("unsubscribe", s); e.set("sp", J::Str(c.subs[R((uint32)c.subs.size())].sp)); }
+            else { e = RandSubscribe(c, 1); if (e.has("quiet")) e.set("quiet", J::Bool(false)); }
+            if (e["op"].s != "noop") { if (cp == 0) cmds.a.insert(cmds.a.begin(), e); else cmds.push(e); }
+         }
          cmd.set("cmds", cmds); return cmd;
       }
       if (k < (a += 3)) { J cmd = Cmd("multi", s); J ops = J::Arr(); const uint32 n = 2+R(2); for (uint32 i=0; i<n; i++) { J o = J::Obj(); if (R(2)) { SV q; q.push_back(names[R(3)]); if (R(2)) q.push_back(names[R(3)]); o.set("op", J::Str("set")); o.set("q", PathJ(q)); o.set("v", J::Int(1+R(2))); } else { o.set("op", J::Str("remove")); o.set("key", J::Str(pats[R((uint32)pats.size())])); } ops.push(o); } cmd.set("ops", ops); return cmd; }
@@ -799,13 +869,14 @@ static int Explore(int argc, char ** argv)
    g_report = fopen(argv[6], "w"); if (g_report == NULL) return 2;
    FILE * trace = (argc > 7) ? fopen(argv[7], "w") : NULL; const long ntraces = (argc > 8) ? atol(argv[8]) : 0;
    long violating = 0, done = 0, traced = 0, tracelines = 0, drifting = 0; std::map<std::string,long> opcount;
-   long sel = 0, filteredOut = 0, idxCompared = 0;
+   long sel = 0, filteredOut = 0, idxCompared = 0, limited = 0;
    for (long h=0; (h<histories)&&(violating<25); h++)
    {
       rng.seed(seed*1000003u + (uint32) h*7919u + (idxHeavy ? 17u : 0u));
       const int ns = 3 + (int) R(2);
       SV names; const char * nm[] = {"A", "B", "C", "D"}; for (int i=0; i<ns; i++) names.push_back(nm[i]);
-      World w; w.uniqueNames = true; w.Open(names); Gen g(idxHeavy);
+      const int limit = (R(3) == 0) ? (2 + (int) R(3)) : 0;        // a third of the histories: a server with a per-node child limit of 2..4 (refusals at every depth)
+      World w; w.uniqueNames = true; w.Open(names, limit); Gen g(idxHeavy); if (limit) limited++;
       const bool logit = (trace)&&(h < ntraces);
       if (logit) { J r = J::Obj(); r.set("e", J::Str("Reset")); r.set("h", J::Int(h)); fprintf(trace, "%s\n", mj::ToString(r).c_str()); tracelines++; }
       J hist = J::Arr(); bool bad = false; int step = 0;
@@ -837,14 +908,14 @@ static int Explore(int argc, char ** argv)
          if (!w.violations04.empty()) r.set("violations04", JV(w.violations04));
          if (!w.violations13.empty()) r.set("violations13", JV(w.violations13));
          if (!w.drift.empty()) { r.set("countdrift", JV(w.drift)); drifting++; }
-         if (bad) { violating++; r.set("sessions", JStrs(names)); r.set("commands", hist); }
+         if (bad) { violating++; r.set("sessions", JStrs(names)); r.set("commands", hist); r.set("maxkids", J::Int(limit)); }
          Emit(r);
       }
    }
    if (trace) fclose(trace);
    J s = J::Obj(); s.set("summary", J::Bool(true)); s.set("histories", J::Int(done)); s.set("commands", J::Int(g_commands)); s.set("violating", J::Int(violating)); s.set("drifting", J::Int(drifting));
    s.set("oracle_evaluations", J::Int(g_checks)); s.set("messages_received", J::Int(g_msgs)); s.set("traces_written", J::Int(traced)); s.set("trace_lines", J::Int(tracelines));
-   s.set("selected_node_checks", J::Int(sel)); s.set("filtered_out_node_checks", J::Int(filteredOut)); s.set("index_mirror_checks", J::Int(idxCompared));
+   s.set("histories_with_child_limit", J::Int(limited)); s.set("selected_node_checks", J::Int(sel)); s.set("filtered_out_node_checks", J::Int(filteredOut)); s.set("index_mirror_checks", J::Int(idxCompared));
    J oc = J::Obj(); for (std::map<std::string,long>::iterator it = opcount.begin(); it != opcount.end(); ++it) oc.set(it->first, J::Int(it->second)); s.set("ops", oc);
    Emit(s); fclose(g_report);
    return 0;
@@ -928,7 +999,7 @@ static int Run(const char * file)
    g_report = stdout;
    World w; SV names; for (size_t i=0; i<b["sessions"].a.size(); i++) names.push_back(b["sessions"].a[i].s);
    for (size_t i=0; i<b["commands"].a.size(); i++) if (b["commands"].a[i]["s"].s.find('#') != std::string::npos) w.uniqueNames = true;
-   w.Open(names);
+   w.Open(names, (int) b["maxkids"].i());
    bool explicitConnect = false; for (size_t i=0; i<b["commands"].a.size(); i++) if (b["commands"].a[i]["op"].s == "connect") explicitConnect = true;
    if (!explicitConnect) for (size_t i=0; i<w.cs.size(); i++) { w.Connect(*w.cs[i]); w.Pump(); }
    for (size_t i=0; i<b["commands"].a.size(); i++)
